@@ -36,12 +36,22 @@ Local Open Scope N_scope.
    compiler's answer is the reserved-name diagnostic and nothing else. *)
 Definition C17_full_statement : Prop :=
   forall e, in_quantifier e = true ->
-    (reserved_free e = true -> exists cs, compile e = Ok cs /\ C17_spec e cs)
+    (reserved_free e = true -> exists cs, compile e = Ok cs /\ C17_spec_all e cs)
     /\ (reserved_free e = false -> compile e = Err "reserved name").
 
+(* C17_spec_all = C17_spec (schemas and shapes, event oneof, keys, query service and paths, commands, topics,
+   annotations, closed + linkable) /\ spec_names ("all named from the entity name": the exact status values and
+   numbers, the query service's six messages, command services and their methods' messages, publish and upsert
+   topics with their methods and messages) /\ spec_query_settings (the responses of Get / List / Events incl.
+   "events in get"; the default status filters on State.status) *)
 Theorem C17_full : C17_full_statement.
-Proof. intros e Hq. split; [exact (full_modulo_reserved e Hq)|exact (reserved_rejected e Hq)]. Qed.
+Proof. intros e Hq. split; [exact (full_all_clauses e Hq)|exact (reserved_rejected e Hq)]. Qed.
 Print Assumptions C17_full.
+
+(* the exact names and the query settings hold of EVERYTHING the model of the compiler accepts *)
+Theorem C17_names_and_query_settings : forall e cs, compile e = Ok cs -> spec_names e cs /\ spec_query_settings e cs.
+Proof. exact accepted_names_settings. Qed.
+Print Assumptions C17_names_and_query_settings.
 
 (* THE CONVERSE that was missing: on the quantifier the compiler fails IF AND ONLY IF the declaration uses
    a reserved name; the failure is the reserved-name diagnostic; and it succeeds iff there is none *)
@@ -63,6 +73,34 @@ Theorem C17_reserved_free_is_the_compilers : forall e,
   reserved_free e = walker_reserved_free e && oneof_type_free e.
 Proof. exact reserved_free_split. Qed.
 Print Assumptions C17_reserved_free_is_the_compilers.
+
+(* THE QUANTIFIER IS A PREDICATE ON THE DECLARATION: about the three package scopes it asks only that the names
+   the USER puts there (block schemas and their enum values; method request / response messages and command
+   services; summary topics and messages) are pairwise distinct and differ from the generated names
+   ([user_names_ok]).  That the GENERATED names - six schemas, status values, the query service and its six
+   messages, the publish topic and its message - never collide among themselves holds for EVERY declaration
+   (status values: because their protobuf canonical names differ, sp_enums_ok), and the distinctness of the
+   whole scopes - the link step's package symbol tables - is DERIVED from it, not assumed *)
+Theorem C17_generated_names_never_collide : forall e,
+  (sp_enums_ok e = true -> NoDup (sp_main_generated e))
+  /\ NoDup (sp_service_generated e) /\ NoDup (sp_topic_generated e).
+Proof. intros e. exact (conj (generated_main_nodup e) (conj (generated_service_nodup e) (generated_topic_nodup e))). Qed.
+Print Assumptions C17_generated_names_never_collide.
+
+(* "the options of one enum are distinct names for protobuf" ([sp_enums_ok], stated in EntitySpec.v on the declaration:
+   statuses, block enums, inline enums at any depth, with the documented value lists) is exactly the check the model
+   of the converter runs on the enums it builds (fix 4fb405b) *)
+Theorem C17_enum_names_predicate_is_the_converters : forall e, sp_enums_ok e = decl_enums_ok e.
+Proof. exact enums_ok_eq. Qed.
+Print Assumptions C17_enum_names_predicate_is_the_converters.
+
+Theorem C17_scopes_distinct_from_user_names : forall e, in_quantifier e = true ->
+  NoDup (sp_main_scope e) /\ NoDup (sp_service_scope e) /\ NoDup (sp_topic_scope e).
+Proof.
+  intros e H. pose proof (quantified_of e H) as Q.
+  repeat split; apply nodup_bytes_NoDup; [exact (q_main e Q)|exact (q_service e Q)|exact (q_topic e Q)].
+Qed.
+Print Assumptions C17_scopes_distinct_from_user_names.
 
 (* the STRICT reading - "any name": every declaration in the quantifier compiles - is false, of the
    model and of the real compiler alike (each witness replayed on the real compiler by the correspondence
@@ -121,7 +159,7 @@ Print Assumptions C17_file_acceptance.
    its declaration *)
 Theorem C17_file_full_modulo_reserved : forall es, file_quantifier es = true ->
   exists l, compile_file es = Ok (concat l)
-            /\ Forall2 (fun e cs => compile e = Ok cs /\ C17_spec e cs) es l.
+            /\ Forall2 (fun e cs => compile e = Ok cs /\ C17_spec_all e cs) es l.
 Proof. exact file_full_modulo_reserved. Qed.
 Print Assumptions C17_file_full_modulo_reserved.
 
@@ -143,13 +181,13 @@ Proof.
   exact (conj property_named_keys_in_scope
         (conj (proj1 optional_array_in_scope) (proj1 (proj2 optional_array_in_scope)))).
 Qed.
+Print Assumptions C17_unreserved_names.
 (* statuses that differ only in case (Active / ACTIVE) are one protobuf name twice: outside the quantifier
    and rejected by the compiler's enum diagnostic since fix 4fb405b *)
 Theorem C17_status_case_out_of_scope :
   in_quantifier status_case_sample = false /\ compile status_case_sample = Err "enum option conflict".
 Proof. exact status_case_out_of_scope. Qed.
 Print Assumptions C17_status_case_out_of_scope.
-Print Assumptions C17_unreserved_names.
 
 (* PARTIAL (2): for EVERY declaration the model compiles (in the quantifier or not, reserved
    names or not) the output satisfies the core specification; for declarations in the
@@ -576,6 +614,77 @@ Print Assumptions C17_segments_cover.
 Theorem C17_suffix_sites_from_model : forallb segment_matches (seq 0 10) = true.
 Proof. exact suffix_sites_from_model. Qed.
 Print Assumptions C17_suffix_sites_from_model.
+
+(* the name class: the laws of lib/Strcase.v the acceptance proof uses hold for ASCII identifiers ([ident] /
+   [name_ok], the quantifier's names).  The j5s lexer also accepts non-ASCII letters; on bytes that class
+   contains encoded white space which TrimSpace removes, so the laws do not extend to it (a name whose first
+   and last bytes are ASCII identifier bytes is never trimmed) *)
+Theorem C17_name_class_boundary :
+  (exists s, ident8 s = true /\ trim_space s <> s /\ to_snake (104 :: 105 :: s) <> 104 :: 105 :: s)
+  /\ (forall c s d, plain c = true -> plain d = true -> trim_space (c :: s ++ [d]) = c :: s ++ [d])
+  /\ (forall s, ident s = true -> trim_space s = s).
+Proof. exact (conj trim_space_ident8_refuted (conj trim_space_ident8_ascii_ends trim_space_ident)). Qed.
+Print Assumptions C17_name_class_boundary.
+
+(* the same two ties WITHOUT a probe: for every declaration *)
+Theorem C17_run_order_for_every_declaration : forall e fl,
+  landmarks (expand_with e fl) = flat_map (defines e) EntityGen.run_order ++ map schema_landmark (e_schemas e).
+Proof. exact run_order_universal. Qed.
+Print Assumptions C17_run_order_for_every_declaration.
+
+Theorem C17_entity_parts_for_every_declaration : forall e fl,
+  psm_parts (expand_with e fl) = map (part_of e) EntityGen.entity_parts.
+Proof. exact entity_parts_universal. Qed.
+Print Assumptions C17_entity_parts_for_every_declaration.
+
+Theorem C17_property_names_for_every_declaration : forall e fl,
+  same_names (map f_json (m_fields (state_msg e fl))) (lits_of "acceptState") = true
+  /\ same_names (map f_json (m_fields (event_msg e))) (lits_of "acceptEvent") = true
+  /\ same_names (publish_message_fields e) (lits_of "acceptPublishTopic") = true.
+Proof. exact property_names_universal. Qed.
+Print Assumptions C17_property_names_for_every_declaration.
+
+Theorem C17_formats_for_every_declaration : forall e,
+  fmt_of "acceptQuery" "%sGet" && fmt_of "acceptQuery" "%sList" && fmt_of "acceptQuery" "%sEvents"
+    && fmt_of "acceptQuery" "%sQuery" && fmt_of "acceptPublishTopic" "%sEvent" && fmt_of "acceptPublishTopic" "%sPublish" = true
+  /\ option_map (fun s => (sv_name s, map mt_name (sv_methods s))) (last_svc (query_components e))
+     = Some (sprintf1 (list_ascii_of_string "%sQuery") (query_prefix e) ++ bs "Service",
+             map (fun f => sprintf1 (list_ascii_of_string f) (query_prefix e)) ["%sGet"; "%sList"; "%sEvents"]%string)
+  /\ option_map (fun s => (sv_name s, map mt_name (sv_methods s))) (last_svc (publish_components e))
+     = Some (to_camel (sprintf1 (list_ascii_of_string "%sPublish") (camel_name e)) ++ bs "Topic",
+             [sprintf1 (list_ascii_of_string "%sEvent") (camel_name e)]).
+Proof. exact formats_universal. Qed.
+Print Assumptions C17_formats_for_every_declaration.
+
+Theorem C17_suffix_sites_for_every_declaration : forall e fl,
+  msg_sites (state_msg e fl) = map (fun s => component_name e (bs s)) ["State"; "Keys"; "Data"; "Status"]%string
+  /\ msg_sites (event_msg e) = map (fun s => component_name e (bs s)) ["Event"; "Keys"; "EventType"]%string
+  /\ m_name (keys_msg e) = component_name e (bs "Keys") /\ m_name (data_msg e) = component_name e (bs "Data")
+  /\ m_name (event_type_msg e) = component_name e (bs "EventType")
+  /\ refs_of (publish_components e) = map (fun s => component_name e (bs s)) ["Keys"; "EventType"; "Data"; "Status"]%string
+  /\ lits_ok "acceptState" ["State"; "Keys"; "Data"; "Status"]%string = true
+  /\ lits_ok "acceptEvent" ["Event"; "Keys"; "EventType"]%string = true
+  /\ lits_ok "acceptKeys" ["Keys"]%string = true /\ lits_ok "acceptData" ["Data"]%string = true
+  /\ lits_ok "acceptEventOneof" ["EventType"]%string = true
+  /\ lits_ok "acceptPublishTopic" ["Keys"; "EventType"; "Data"; "Status"]%string = true.
+Proof. exact suffix_sites_universal. Qed.
+Print Assumptions C17_suffix_sites_for_every_declaration.
+
+Theorem C17_strcase_calls_for_every_declaration : forall e s,
+  component_name e s = apply_fn (the_fn "componentName") (e_name e) ++ apply_fn (the_fn "componentName") s
+  /\ full_name e = e_pkg e ++ [46] ++ apply_fn (the_fn "fullName") (e_name e)
+  /\ snake_name e = apply_fn EntityGen.entity_name_function (e_name e)
+  /\ status_prefix e = apply_fn (the_fn "acceptStatus") (e_name e) ++ the_status_literal
+  /\ status_prefix e = apply_fn (the_fn "findStatus") (e_name e) ++ the_status_literal
+  /\ map f_json (m_fields (event_type_msg e)) = map (fun ev => apply_fn (the_fn "acceptEventOneof") (ev_name ev)) (e_events e)
+  /\ query_prefix e = apply_fn "ToCamel" (snake_name e)
+  /\ own_response_name e = apply_fn "ToSnake" (apply_fn "ToLowerCamel" (snake_name e))
+  /\ camel_name e = apply_fn (the_fn "acceptPublishTopic") (e_name e)
+  /\ (forall sm, summary_topic_name e sm =
+        apply_fn (the_fn "acceptSummaryTopics") (e_name e)
+        ++ match s_name sm with [] => bs "Summary" | n => apply_fn (the_fn "acceptSummaryTopics") n end).
+Proof. exact strcase_calls_universal. Qed.
+Print Assumptions C17_strcase_calls_for_every_declaration.
 
 Theorem C17_strcase_calls_from_model : strcase_calls_from_model_stmt.
 Proof. exact strcase_calls_from_model. Qed.
